@@ -15,6 +15,8 @@ operations are recorded (add_node / add_edge / remove_edge / item assignment) an
 Library contracts assumed (rustworkx): in a forest all_simple_paths(root, v) is the single root path of v (none for v = root);
 successors / predecessors list the children / the parent; node_indices() are pairwise distinct; PyDiGraph.copy() is a new graph
 sharing the payload objects; dfs_search calls finish_vertex on a vertex after all its descendants."""
+import ast
+
 import z3
 
 from pyvc import alg, dsl
@@ -530,11 +532,15 @@ def verify_all(ctx, repo, prop):
     dsl.verify(ctx, repo, R(), prop + ".graph", [TR + "._relabel_grafted_subtree_nodes", TR + "._add_node_to_indices"], h_relabel_grafted, expect_covers=RELABEL_COVERS)
     dsl.verify(ctx, repo, R(), prop + ".graph", [VIS + ".__init__", VIS + ".discover_vertex"], h_discover_vertex, expect_covers=["relabeller.root", "relabeller.clone"])
     dsl.verify(ctx, repo, R(), prop + ".graph", TR + ".relabel_nodes", h_relabel_nodes, expect_covers=["relabel_nodes"])
+    dsl.verify(ctx, repo, R(), prop + ".graph", [TR + "." + m for m in ("nodes", "get_number_of_nodes", "data_log_likelihood", "outliers", "get_data", "get_data_len", "get_descendants", "get_number_of_descendants",
+                                                                       "get_subtree_data_len", "add_data_point_to_outliers", "remove_data_point_from_outliers", "add_data_point_to_node", "_is_data_point_in_tree")],
+               h_small, expect_covers=SMALL_COVERS)
     dsl.verify(ctx, repo, R(), prop + ".graph", TR + ".to_dict", h_to_dict, expect_covers=["to_dict"])
     dsl.verify(ctx, repo, R(), prop + ".graph", TR + ".from_dict", h_from_dict, expect_covers=FROM_DICT_COVERS)
+    dsl.verify(ctx, repo, R(), prop + ".graph", [TR + ".get_subtree", TR + "._add_node_to_indices"], h_get_subtree, expect_covers=SUBTREE_COVERS)
     ctx.trust("rustworkx PyDiGraph by its contract as used by Tree (forest: unique root path, successors / predecessors, distinct node indices, shallow copy(), dfs_search finish order)",
               "rustworkx compose / remove_node_retain_edges / remove_nodes_from / descendants / dfs_search (discover_vertex once per reachable vertex, parents first) by their documented contracts",
-              "Tree.get_subtree / from_dict / to_dict and the clade / Newick visitors: not under contract (bounded edit-grammar enumeration)")
+              "rustworkx subgraph(preserve_attrs) = induced subgraph sharing payloads (library)")
 
 
 # ----------------------------------------------------------------------------------------------------------- remove_subtree
@@ -1181,3 +1187,292 @@ def h_from_dict(I, fi):
 
 
 FROM_DICT_COVERS = ["from_dict.stored-prior", "from_dict.legacy-no-prior", "from_dict.with-clones", "from_dict.no-clone", "from_dict.clone-entry", "from_dict.outlier-or-root-entry", "from_dict.holes-removed", "from_dict.no-holes"]
+
+
+# ----------------------------------------------------------------------------------------------------------- small readers / thin wrappers
+
+
+def h_small(I, nodes_fi, nn_fi, dll_fi, outl_fi, gdata_fi, glen_fi, desc_fi, ndesc_fi, sublen_fi, addout_fi, remout_fi, addnode_fi, present_fi):
+    P = I.P
+    t, F = tree_obj(I, nodes_fi.cls)
+    log = F.log
+    which = P.decide(10)  # (adding a point twice trips the assertion of add_data_point_to_node: callers must exclude it - C07)
+    v = alg.sym("v", "Int")
+
+    class Lst(Model):
+        def __init__(self, key):
+            self.key = key
+
+        def m___len__(self, I_):
+            n_ = alg.raw_app("n_data_at", I_.to_num(self.key), sort="Int")
+            I_.P.assume(I_.P.z(n_) >= 0)
+            return n_
+
+        def m_remove(self, I_, x):
+            log.append(("list-remove", self.key, x))
+
+        def contains(self, I_, x):
+            return SBool(z3.Function("is_outlier_point", z3.IntSort(), z3.BoolSort())(I_.P.z(alg.sym("dp_idx", "Int"))))
+
+    class Data(Model):
+        def getitem(self, I_, k):
+            return Lst(k)
+
+        def contains(self, I_, k):
+            return True
+
+    t.fields["_data"] = Data()
+    I.registry.globals_override["list"] = lambda I_, x=(): ("list-copy-of", x.key if isinstance(x, Lst) else x) if isinstance(x, (Lst, SymSeq)) and not isinstance(x, SymSeq) else (x if isinstance(x, SymSeq) else list(I_.iterate(x)))
+
+    class Rx(Model):
+        def m_descendants(self, I_, g, idx):
+            nd = alg.raw_app("n_desc", I_.to_num(idx), sort="Int")
+            I_.P.assume(I_.P.z(nd) >= 0)
+            return SymSeq("descendants(%s)" % I_.to_num(idx).key(), nd, lambda k: alg.raw_app("desc", I_.to_num(idx), I_.to_num(k), sort="Int"))
+
+    I.registry.globals_override["rx"] = Rx()
+    if which == 0:
+        Graph.m_nodes = lambda self, I_: SymSeq("graph-nodes", alg.sym("n_clones", "Int"), lambda k: Pay(("clone", I_.to_num(k).key()), log, alg.raw_app("clone_name", I_.to_num(k), sort="Int")), tail=[Pay(("root",), log, ROOT)])
+        P.assume(P.z(alg.sym("n_clones", "Int")) >= 0)
+        out = I.getattr(t, "nodes")
+        dsl.cover(I, "small.nodes")
+        ok = isinstance(out, SymSeq) and not out.tail and not P.feasible(P.z(out.core_len) != P.z(alg.sym("n_clones", "Int")))
+        P.check("read.nodes", ok, "nodes lists the names of all graph nodes except the dummy root", kind="post")
+    elif which == 1:
+        out = I.call_function(nn_fi, [t], {}, force_inline=True)
+        dsl.cover(I, "small.number-of-nodes")
+        P.check("read.number-of-nodes", P.z(I.to_num(out)) == P.z(alg.sym("num_nodes", "Int") - 1), "the number of clones is the number of graph nodes minus the dummy root", kind="post")
+    elif which == 2:
+        out = I.getattr(t, "data_log_likelihood")
+        dsl.cover(I, "small.data-log-likelihood")
+        P.check("read.data-log-likelihood", out == ("log_r", F.ri.key()), "the tree's likelihood grid is the log_r vector of the dummy root", kind="post")
+    elif which == 3:
+        out = I.getattr(t, "outliers")
+        dsl.cover(I, "small.outliers")
+        P.check("read.outliers", isinstance(out, tuple) and out[0] == "list-copy-of" and I.equal(out[1], -1) is True, "outliers is a copy of the data list kept under -1", kind="post")
+    elif which == 4:
+        out = I.call_function(gdata_fi, [t, v], {}, force_inline=True)
+        out2 = I.call_function(glen_fi, [t, v], {}, force_inline=True)
+        dsl.cover(I, "small.get-data")
+        P.check("read.get-data", isinstance(out, tuple) and out[0] == "list-copy-of" and (I.to_num(out[1]) - v).is_zero() and (I.to_num(out2) - alg.raw_app("n_data_at", v, sort="Int")).is_zero(),
+                "get_data(v) is a copy of v's data list (callers may shuffle it), get_data_len(v) its length", kind="post")
+    elif which == 5:
+        out = I.call_function(desc_fi, [t, v], {}, force_inline=True)
+        n2 = I.call_function(ndesc_fi, [t, v], {}, force_inline=True)
+        dsl.cover(I, "small.descendants")
+        vi = alg.raw_app("idx_of", v, sort="Int")
+        nd = alg.raw_app("n_desc", vi, sort="Int")
+        ok = isinstance(out, SymSeq) and not P.feasible(P.z(out.core_len) != P.z(nd)) and not P.feasible(P.z(I.to_num(n2)) != P.z(nd))
+        P.check("read.descendants", ok, "get_descendants(v) names the rustworkx descendants of v's index; get_number_of_descendants counts them", kind="post")
+    elif which == 6:
+        out = I.call_function(sublen_fi, [t, v], {}, force_inline=True)
+        dsl.cover(I, "small.subtree-data-len")
+        vi = alg.raw_app("idx_of", v, sort="Int")
+        nd = alg.raw_app("n_desc", vi, sort="Int")
+        b = alg.fresh_bound()
+        want = alg.raw_app("n_data_at", v, sort="Int") + alg.bigsum("", nd, alg.raw_app("n_data_at", alg.raw_app("name_of", alg.raw_app("desc", vi, b, sort="Int"), sort="Int"), sort="Int"), bound=b)
+        P.check("read.subtree-data-len", bool(alg.is_identically_zero(I.to_num(out) - want)) or P.z(I.to_num(out)) == P.z(want), "get_subtree_data_len(v) = |data(v)| + sum over the descendants d of v of |data(d)|", kind="post")
+    elif which == 7:
+        calls = []
+        I.registry.call_contracts[TR + ".add_data_point_to_node"] = lambda I_, a, k, n: calls.append((a[1], a[2]))
+        I.call_function(addout_fi, [t, ("dp",)], {}, force_inline=True)
+        dsl.cover(I, "small.add-outlier")
+        P.check("edit.add-outlier", len(calls) == 1 and calls[0][0] == ("dp",) and I.equal(calls[0][1], -1) is True, "adding an outlier is adding the point to the place named -1", kind="post")
+    elif which == 8:
+        I.call_function(remout_fi, [t, ("dp",)], {}, force_inline=True)
+        dsl.cover(I, "small.remove-outlier")
+        P.check("edit.remove-outlier", len(log) == 1 and log[0][0] == "list-remove" and I.equal(log[0][1], -1) is True and log[0][2] == ("dp",), "removing an outlier removes the point from the list kept under -1 and touches nothing else", kind="post")
+    elif which == 9:
+        calls, pres = [], []
+        I.registry.call_contracts[TR + "._is_data_point_in_tree"] = lambda I_, a, k, n: (pres.append(a[1]), 0)[1]
+        I.registry.call_contracts[TR + "._internal_add_data_point_to_node"] = lambda I_, a, k, n: calls.append(tuple(a[1:]))
+        I.call_function(addnode_fi, [t, ("dp",), v], {}, force_inline=True)
+        dsl.cover(I, "small.add-to-node")
+        P.check("edit.add-to-node", pres == [("dp",)] and len(calls) == 1 and calls[0][0] is False and calls[0][1] == ("dp",) and (I.to_num(calls[0][2]) - v).is_zero(),
+                "add_data_point_to_node first checks the point is not in the tree, then adds it in update mode (path update on)", kind="post")
+
+
+SMALL_COVERS = ["small.nodes", "small.number-of-nodes", "small.data-log-likelihood", "small.outliers", "small.get-data", "small.descendants", "small.subtree-data-len", "small.add-outlier",
+                "small.remove-outlier", "small.add-to-node"]
+
+
+# ----------------------------------------------------------------------------------------------------------- get_subtree
+
+
+def h_get_subtree(I, fi, add_idx_fi):
+    """get_subtree(r): the whole tree (a copy) for the dummy root; otherwise a NEW tree whose graph is the dummy root plus the induced subgraph on r and its
+    descendants, attached under the root at r; every node of the new graph gets a copy of its payload (no TreeNode shared with the source), a copy of the
+    source's data list under its name and its (name <-> index) entries; the recursion values are recomputed last; the source tree's graph is not written."""
+    P = I.P
+    t, F = tree_obj(I, fi.cls)
+    log = F.log
+    whole = P.decide(2) == 1
+    copies = []
+    I.registry.call_contracts[TR + ".copy"] = lambda I_, a, k, n: (copies.append(a[0]), ("copy-of-tree",))[1]
+    if whole:
+        out = I.call_function(fi, [t, ROOT], {}, force_inline=True)
+        dsl.cover(I, "subtree.whole")
+        P.check("subtree.whole-tree-is-a-copy", out == ("copy-of-tree",) and copies == [t] and not log, "the subtree at the dummy root is a copy of the tree", kind="post")
+        return
+    r = alg.sym("subtree_root", "Int")
+    ri_new = alg.sym("new_root_idx", "Int")
+    src_graph = t.fields["_graph"]
+
+    class SrcData(Model):
+        def getitem(self, I_, k):
+            return ("src-data-list", k if isinstance(k, str) else I_.to_num(k).key())
+
+    t.fields["_data"] = SrcData()
+    I.registry.globals_override["list"] = lambda I_, x=(): ("list-copy-of", x) if isinstance(x, tuple) and x and x[0] == "src-data-list" else (x if isinstance(x, (SymSeq, Model)) else list(I_.iterate(x)))
+
+    class DescList(Model):
+        """list(rx.descendants(graph, idx)), possibly with a concrete prefix put in front of it"""
+
+        def __init__(self, g, idx, head=()):
+            self.g, self.idx, self.head = g, idx, list(head)
+
+        def binop(self, I_, op, other, swapped):
+            if not (isinstance(op, ast.Add) and swapped and isinstance(other, list)):
+                raise Unsupported("operation on the list of descendants")
+            return DescList(self.g, self.idx, list(other) + self.head)
+
+    class Rx(Model):
+        def m_descendants(self, I_, g, idx):
+            return DescList(g, I_.to_num(idx))
+
+    I.registry.globals_override["rx"] = Rx()
+    sub_req = []
+
+    class SubGraph(Model):
+        def m_node_indices(self, I_):
+            n_ = alg.sym("n_sub", "Int")
+            I_.P.assume(I_.P.z(n_) >= 1)
+            return SymSeq("sub.node_indices", n_, lambda k: alg.raw_app("sub_index", I_.to_num(k), sort="Int"))
+
+        def getitem(self, I_, idx):
+            return Pay(("sub", I_.to_num(idx).key()), log, alg.raw_app("sub_name", I_.to_num(idx), sort="Int"))
+
+    sub = SubGraph()
+
+    def subgraph(self, I_, idxs, preserve_attrs=False):
+        sub_req.append((self, idxs, preserve_attrs))
+        return sub
+
+    Graph.m_subgraph = subgraph
+
+    class NewPay(Pay):
+        pass
+
+    class NewGraph(Model):
+        def __init__(self):
+            self.items = {}
+
+        def m_compose(self, I_, other, edges):
+            log.append(("compose", other, edges))
+
+        def m_node_indices(self, I_):
+            n_ = alg.sym("n_new", "Int")
+            I_.P.assume(I_.P.z(n_) >= 1)
+            return SymSeq("new.node_indices", n_, lambda k: alg.raw_app("new_index", I_.to_num(k), sort="Int"))
+
+        def getitem(self, I_, idx):
+            k = I_.to_num(idx).key()
+            if k in self.items:
+                return self.items[k]
+            return NewPay(("shared-payload", k), log, alg.raw_app("new_name", I_.to_num(idx), sort="Int"))
+
+        def setitem(self, I_, idx, v):
+            self.items[I_.to_num(idx).key()] = v
+            log.append(("new-set-payload", I_.to_num(idx), v))
+
+    class NewIdx(Model):
+        def __init__(self):
+            self.stores = []
+
+        def getitem(self, I_, k):
+            if k == ROOT:
+                return ri_new
+            raise Unsupported("new tree index of %r" % (k,))
+
+        def setitem(self, I_, k, v):
+            self.stores.append((k, v))
+
+    class NewData(Model):
+        def setitem(self, I_, k, v):
+            log.append(("new-data", k, v))
+
+    new = Obj(fi.cls)
+    ng = NewGraph()
+    new.fields.update({"_graph": ng, "_node_indices": NewIdx(), "_node_indices_rev": NewIdx(), "_data": NewData(), "grid_size": ("grid",)})
+    made = []
+    I.registry.class_models["Tree"] = lambda I_, grid=None: (made.append(grid), new)[1]
+    ups = []
+    I.registry.call_contracts[TR + ".update"] = lambda I_, a, k, n: ups.append((a[0], len(log)))
+    st = {}
+
+    def search(I_, node, fr):
+        """the linear search for the subgraph index whose payload is named subtree_root: one arbitrary iteration in both outcomes; afterwards the index found"""
+        from pyvc.interp import _Break
+        seq = I_.eval(node.iter, fr)
+        P.check("subtree.search-over-the-subgraph", isinstance(seq, SymSeq) and seq.key == "sub.node_indices", "the search ranges over the node indices of the induced subgraph", kind="post")
+        mode = P.decide(3)
+        if mode < 2:
+            j = seq.fresh_index(I_, "probe")
+            idx = seq.at(I_, j)
+            nm = alg.raw_app("sub_name", I_.to_num(idx), sort="Int")
+            P.assume(P.z(nm) == P.z(r) if mode == 0 else P.z(nm) != P.z(r))
+            before = fr.vars.get("sub_root_idx")
+            I_.assign_target(node.target, idx, fr)
+            broke = False
+            try:
+                I_.exec_block(node.body, fr)
+            except _Break:
+                broke = True
+            if mode == 0:
+                dsl.cover(I_, "subtree.search-hit")
+                P.check("subtree.search-hit", broke and (I_.to_num(fr.vars.get("sub_root_idx")) - I_.to_num(idx)).is_zero(), "a node named subtree_root ends the search with its index", kind="post")
+            else:
+                dsl.cover(I_, "subtree.search-miss")
+                P.check("subtree.search-miss", not broke and fr.vars.get("sub_root_idx") is before, "any other node leaves the result untouched and the search goes on", kind="post")
+            raise PathEnd()
+        found = alg.sym("sub_root_found", "Int")
+        P.assume(P.z(alg.raw_app("sub_name", found, sort="Int")) == P.z(r), "the induced subgraph contains the subtree root (it is the first index asked for)")
+        fr.vars["sub_root_idx"] = found
+        st["found"] = found
+
+    I.registry.loop_invariants[(fi.qualname, 0)] = search
+    I.registry.generic_loops.add(fi.qualname)
+    I.registry.distinct_iterables = {"node_indices"}
+    I.registry.generic_store_ok = {"new._data"}  # keyed by the node's name: names are pairwise distinct (wf)
+    out = I.call_function(fi, [t, r], {}, force_inline=True)
+    dsl.cover(I, "subtree.proper")
+    ridx = alg.raw_app("idx_of", r, sort="Int")
+    P.check("subtree.new-tree", out is new and made == [("grid",)], "a new Tree on the same grid is returned", kind="post")
+    lst = sub_req[0][1] if sub_req else None
+    ok_nodes = isinstance(lst, DescList) and lst.g is src_graph and (lst.idx - ridx).is_zero() and len(lst.head) == 1 and (I.to_num(lst.head[0]) - ridx).is_zero()
+    P.check("subtree.induced-on-root-and-descendants", len(sub_req) == 1 and sub_req[0][0] is src_graph and sub_req[0][2] is True and ok_nodes, "the subgraph is induced (attributes preserved) on the subtree root and its descendants", kind="post")
+    comp = [e for e in log if e[0] == "compose"]
+    okc = len(comp) == 1 and comp[0][1] is sub and isinstance(comp[0][2], dict) and len(comp[0][2]) == 1
+    if okc:
+        (k_, v_), = comp[0][2].items()
+        okc = (I.to_num(k_) - ri_new).is_zero() and isinstance(v_, tuple) and (I.to_num(v_[0]) - st["found"]).is_zero() and v_[1] is None
+    P.check("subtree.attached-under-the-new-root", okc, "the subgraph is merged into the new tree with one edge: new dummy root -> the subtree root", kind="post")
+    gens = P.ghost.get("generic_indices", [])
+    sets = [e for e in log if e[0] == "new-set-payload"]
+    datas = [e for e in log if e[0] == "new-data"]
+    if len(gens) >= 1 and len(sets) == 1:
+        idx = alg.raw_app("new_index", gens[-1], sort="Int")
+        nm = alg.raw_app("new_name", idx, sort="Int")
+        p = sets[0][2]
+        P.check("subtree.payload-copied", (sets[0][1] - idx).is_zero() and isinstance(p, Pay) and p.key == ("copy-of", ("shared-payload", idx.key())), "every node of the new graph gets a copy of the payload it shares with the source after the merge", kind="post")
+        P.check("subtree.data-list-copied", len(datas) == 1 and (I.to_num(datas[0][1]) - nm).is_zero() and datas[0][2] == ("list-copy-of", ("src-data-list", nm.key())), "its data list is a copy of the source's list under the same name", kind="post")
+        i1, i2 = new.fields["_node_indices"].stores, new.fields["_node_indices_rev"].stores
+        P.check("subtree.index-maps", len(i1) == 1 and len(i2) == 1 and (I.to_num(i1[0][0]) - nm).is_zero() and (I.to_num(i1[0][1]) - idx).is_zero() and (I.to_num(i2[0][0]) - idx).is_zero() and (I.to_num(i2[0][1]) - nm).is_zero(),
+                "and its (name <-> index) entries are registered in the new tree", kind="post")
+    else:
+        P.check("subtree.payload-copied", False, "every node of the new graph gets a copy of its payload", kind="post")
+    P.check("subtree.update-last", len(ups) == 1 and ups[0][0] is new and ups[0][1] == len(log), "the new tree's recursion values are recomputed last", kind="post")
+    P.check("subtree.source-untouched", not [e for e in log if e[0] in ("set-payload", "add-edge", "remove-edge", "add-node", "del", "remove-nodes")] and not t.fields["_node_indices"].stores, "the source tree's graph and index maps are not written", kind="post")
+
+
+SUBTREE_COVERS = ["subtree.whole", "subtree.proper", "subtree.search-hit", "subtree.search-miss"]
